@@ -20,6 +20,7 @@ pub fn any_rest() -> G {
         hi: None,
         sink: Sink::Bare,
         cfg: false,
+        ctxb: 0,
     })))
 }
 
@@ -114,7 +115,7 @@ pub fn small_grammars(with_rep: bool) -> Vec<G> {
                 continue;
             }
             for (lo, hi) in [(0u8, None), (1, None), (0, Some(2u8)), (2, Some(2))] {
-                let rep = Rep { item: b(x.clone()), sep: None, leading: false, trailing: false, lo, hi, sink: Sink::Vec, cfg: false };
+                let rep = Rep { item: b(x.clone()), sep: None, leading: false, trailing: false, lo, hi, sink: Sink::Vec, cfg: false, ctxb: 0 };
                 out.push(G::Rep(rep.clone()));
                 out.push(G::Then(b(G::Rep(rep)), b(G::Just("a".into()))));
             }
